@@ -1,5 +1,5 @@
 #!/usr/bin/env python3
-"""seed_table.py <corpus.log> : refresh seeded/*/meta.json `detection.now` from a tools/corpus.sh run and print the
+"""seed_table.py <corpus.log> (a partial log keeps the recorded state of the seeds it does not list) : refresh seeded/*/meta.json `detection.now` from a tools/corpus.sh run and print the
 DESIGN.md section 11 table (markdown)."""
 import json, os, re, sys
 log = open(sys.argv[1]).read().splitlines()
@@ -14,9 +14,13 @@ for n in sorted(os.listdir('/verif/seeded')):
     if not os.path.exists(mp):
         continue
     d = json.load(open(mp))
-    st, keys = now.get(n, ('?', []))
-    own = [k for k in keys if k.startswith((d['property'] + '.', d['property'] + ':'))]
-    other = sorted({re.split(r'[.:]', k)[0] for k in keys if not k.startswith((d['property'] + '.', d['property'] + ':'))})
+    if n in now:
+        st, keys = now[n]
+        own = [k for k in keys if k.startswith((d['property'] + '.', d['property'] + ':'))]
+        other = sorted({re.split(r'[.:]', k)[0] for k in keys if not k.startswith((d['property'] + '.', d['property'] + ':'))})
+    else:       # not in this (partial) corpus run: keep what the last run that covered the seed recorded
+        prev = d['detection'].get('now') or {}
+        st, own, other = prev.get('status', '?'), prev.get('own_keys', []), prev.get('other_properties', [])
     d['detection']['now'] = dict(status=st, own_keys=own, other_properties=other)
     json.dump(d, open(mp, 'w'), indent=1)
     kind = 'precise' if any(k.endswith('[violation]') for k in own) else ('fail-closed' if own else 'MISSED')
